@@ -1,4 +1,5 @@
-"""C39 bit-manipulation helpers: correspondence of Model.Bitfun with ppci/utils/bitfun.py and
+"""C39 bit-manipulation helpers: translation tie (T1: Gen.Py_bitfun is regenerated from ppci/utils/bitfun.py on
+every run and proved equal to Model.Bitfun), correspondence of Model.Bitfun with the real functions, and
 evaluation of the property on the real functions (oracle: Spec.Bits / Spec.ArmImm through the driver)."""
 PROP = "C39"
 LEAN_PROPS = "PpciVerif/Props/C39.lean"
@@ -12,14 +13,22 @@ LEVEL_TEXT = (
     "2^bits in the signed/unsigned interval) for every integer; clz/ctz/popcnt equal the leading/trailing-zero and population counts of "
     "the low `bits` bits of every integer incl. negative (two's complement) arguments; encode_imm32 returns a 12-bit rot:imm8 field "
     "that decodes (ROR(imm8,2*rot)) to v, and raises ValueError exactly when no such field exists, for every integer v. Also proved: "
-    "align, wrap_negative, inrange, value_to_bytes_big_endian against their arithmetic definitions. The model is hand-written and tied "
-    "to ppci/utils/bitfun.py by a differential run of every helper on every check.")
+    "align, wrap_negative, inrange, value_to_bytes_big_endian against their arithmetic definitions. Tie = translation + correspondence: "
+    "16 helpers (rotate_right/left, rotl, rotr, reverse_bits, to_signed, to_unsigned, correct, clz, ctz, popcnt, sign_extend, encode_imm32, "
+    "align, wrap_negative, inrange) are translated from the source text of the checked tree to Lean (Gen.Py_bitfun, fuel-indexed loops) on "
+    "every run; gen_*_eq_model prove that each regenerated function equals the hand model for every value/count, every width >= 0 and every "
+    "fuel above bits+1 (17 for encode_imm32, m+1 for align; FuelExhausted never returned = termination), and gen_*_spec restate the "
+    "statement's helpers about the regenerated functions; the hand model is additionally run differentially against every real helper.")
 LEVEL_NOTE = (
-    "trusted: Lean kernel; axioms propext/Classical.choice/Quot.sound; hand model <-> source correspondence is sampled (all widths <= 12 "
-    "exhaustive in thorough, <= 8 quick; boundary/random 16/32/64 and odd widths), not proved; Spec.Bits/Spec.ArmImm are the reference "
+    "trusted: Lean kernel; axioms propext/Classical.choice/Quot.sound; the T1 translator translate/py2lean.py and its stated reading of the "
+    "Python fragment (translate/SEMANTICS.md), cross-checked on every run by the differential run hand model <-> real functions (all widths "
+    "<= 12 exhaustive in thorough, <= 8 quick; boundary/random 16/32/64 and odd widths); value_to_bytes_big_endian, value_to_bits, "
+    "bits_to_bytes are outside the translated fragment (generator expression, lists of bools, subscripts) and stay tied by correspondence "
+    "only; negative widths are outside the hand model; Spec.Bits/Spec.ArmImm are the reference "
     "definitions (written from the mathematical definitions / ARM ARM A5.2.4). Outside the helpers' domains (width 0, rotate_right "
     "count outside 0..32, rotation of values >= 2^bits) behaviour is modelled and compared but a difference there is only a note.")
-TECHNIQUE = "Lean 4 proof (bit extensionality on Nat/Int, induction over the loops) over a hand model + differential correspondence with the Python functions"
+TECHNIQUE = ("Lean 4 proof (bit extensionality on Nat/Int, induction over the loops) over a hand model; translation (py2lean) of the Python source "
+             "to Lean on every run with machine-checked equality regenerated definition = hand model; + differential correspondence with the Python functions")
 RULE = (
     "per helper: every value of every width 1..12 (thorough; quick 1..8) with every rotation count 0..w-1 plus counts outside that "
     "range; widths 13,16,24,31,32,33,63,64,65 with boundary values (0,1,2^k,2^k+-1,2^w-1,alternating patterns) and random values, "
@@ -27,7 +36,9 @@ RULE = (
     "negative and >= 2^32. distinct = distinct (helper,args); non-trivial = result differs from the argument or is an error, and the "
     "value is not 0")
 TRUSTED = [
-    "hand model Model.Bitfun (+ Model.PyInt: Python & | on negative ints as infinite two's complement) of ppci/utils/bitfun.py, tied by differential run on every check",
+    "translate/py2lean.py (T1 translator; reading of the Python fragment in translate/SEMANTICS.md) + runtime Model.PyRt/Model.PyInt "
+    "(Python & | ^ ~ on negative ints as infinite two's complement): Gen.Py_bitfun is its output for ppci/utils/bitfun.py of the checked tree",
+    "hand model Model.Bitfun: proved equal to Gen.Py_bitfun (gen_*_eq_model, 16 helpers) and run differentially against the real functions on every check",
     "Spec.Bits / Spec.ArmImm (definitions by bit index and modular arithmetic; ARM modified-immediate = ROR(imm8, 2*rot))",
 ]
 ASSUMPTIONS = [
@@ -56,6 +67,12 @@ CORPUS = [
 ]
 
 BIG_WIDTHS = [13, 16, 24, 31, 32, 33, 63, 64, 65]
+
+
+def regen(ctx):
+    """T1: translate ppci/utils/bitfun.py of the checked tree into Gen/Py_bitfun.lean"""
+    from . import t1
+    t1.regen(ctx, "bitfun")
 
 
 def impl_table():
